@@ -32,6 +32,9 @@ def gen_f2(rng):
     ae = {"acse": t, "dimse": rng.choice([t, 2 * t]), "network": rng.choice([t, 3 * t]), "find_k": rng.randrange(0, 3),
           "find_sleep": rng.choice([0.0, 0.002])}
     role = rng.choice(["acceptor", "acceptor", "requestor"])
+    if rng.randrange(5) == 0:
+        ae["echo_act"] = rng.choice(["abort", "abort", "release"])
+        ae["echo_act_sleep"] = rng.choice([0.0, 0.0, 0.003])
     peer = []
     misc = ["echo_rq", "release_rq", "abort", "unknown", "garbage", "ac", "rj", "rq", "release_rp", "find_rq", "store_rq", "echo_rsp", "cancel"]
     if role == "acceptor":
@@ -83,8 +86,22 @@ def gen_f2(rng):
         else:
             peer.append({"do": rng.choice(["close", "reset", "stall"])})
             break
+    if rng.randrange(7) == 0 and peer[-1]["do"] not in ("close", "reset", "stall"):
+        # the peer ignores whatever it is told and keeps sending for 0.5 - 3 ACSE timeouts
+        gap = rng.choice([0.002, 0.01])
+        dur = rng.choice([0.5, 1.5, 3.0]) * t
+        st = {"do": "flood", "pdu": rng.choice(["echo_rq", "echo_rq", "unknown", "rq", "release_rq", "find_rq"]), "n": max(1, int(dur / gap)), "gap": gap}
+        if st["pdu"] == "unknown":
+            st["type"] = rng.choice([0, 8, 0xFF])
+        peer.append(st)
     if peer[-1]["do"] not in ("close", "reset", "stall"):
         peer.append({"do": rng.choice(["close", "close", "drain", "stall", "reset"]), "t": 3 * t})
+    stalls = []
+    if rng.randrange(6) == 0:
+        # a provider / association thread of the real side is not scheduled for a while (slow node, GC pause)
+        side = "acc0" if role == "acceptor" else "req0"
+        stalls.append({"role": rng.choice(["dul:", "dul:", "assoc:"]) + side, "at": rng.choice([0.0005, 0.002, 0.01, 0.5 * t]),
+                       "dur": rng.choice([0.5, 1.2, 2.5]) * t})
     user = []
     if role == "acceptor":
         if rng.randrange(2) == 0:
@@ -100,7 +117,7 @@ def gen_f2(rng):
             if o in ("release_abort", "echo_abort"):
                 d["gap"] = rng.choice([0.0, 0.001])
             user.append(d)
-    return {"family": "F2", "role": role, "ae": ae, "peer": peer, "user": user,
+    return {"family": "F2", "role": role, "ae": ae, "peer": peer, "user": user, "stalls": stalls,
             "sched": C.gen_sched(rng), "net": C.gen_net(rng)}
 
 
@@ -157,9 +174,29 @@ def check(sc, r):
         roles = sorted(set((t.get("role") or "?").split(":")[0] for t in (r.failure_info or []))) if r.failure == "stuck" else []
         out.append(C.v("liveness", "C05/run-%s/%s" % (r.failure, "+".join(roles)), "run ended %s: %s" % (r.failure, r.failure_info)))
         return out
+    for v in out:
+        if v["sig"] == "C05/undefined-event/acc/Sta3+Evt18":
+            v["sig"] += "/" + _stale_artim_cause(sc, r, v["msg"])
     out += L.check_fsm_lockstep(ID, r)
     out += L.check_back_to_idle(ID, r, dead)
     return out
+
+
+def _stale_artim_cause(sc, r, msg):
+    """Why Evt18 was raised in Sta3.  The known defect: the A-ASSOCIATE-RQ is read (or the provider thread is
+    held up) across the ARTIM expiry instant *after* the reactor iteration has already looked at the timer; AE-6
+    then stops an already expired timer whose `expired` stays true and the NEXT iteration queues Evt18 - i.e.
+    Evt18 is queued after Sta2+Evt6 has been processed.  Evt18 queued before the request was processed and still
+    ending up in Sta3 is a different defect (events handled out of order)."""
+    import re
+
+    m = re.search(r"dul:(acc\d+)", msg)
+    lab = m.group(1) if m else "acc0"
+    e6 = [h["seq"] for h in r.evts(lab, "EVT_FSM_TRANSITION") if h["state"] == "Sta2" and h["fsm_event"] == "Evt6"]
+    q18 = [h["seq"] for h in r.hist if h["kind"] == "evq" and h["item"] == "Evt18" and h.get("role") == "dul:" + lab]
+    if e6 and q18 and q18[0] > e6[0]:
+        return "expired-timer-stopped-by-AE-6"
+    return "other"
 
 
 def _cells(r):
